@@ -247,3 +247,38 @@ v("nexttok-no-unit-filter", ["C01", "C04"], "parse/earley.py", "                
 v("nexttok-seed", ["C01", "C04"], "parse/earley.py", "        q[0, self.cfg.S] = self.cfg.R.one\n\n        col = cols[-1]", "        q[0, self.cfg.S] = self.cfg.R.one\n        q[1, self.cfg.S] = self.cfg.R.one\n\n        col = cols[-1]", "FACTOR-NEXTTOK")
 v("icky-outside-wrong-child", ["C01", "C04", "C02"], "parse/cky.py", "                        α_j[Z] += r.w * y * α_i[X]", "                        α_j[Z] += r.w * α_i[X]", "FACTOR-ICKY")
 v("icky-preterminal-cell", ["C02", "C01", "C04"], "parse/cky.py", "        tmp = new[k - 1]\n        for r in self.terminal[prefix[k - 1]]:", "        tmp = new[k]\n        for r in self.terminal[prefix[k - 1]]:", "FACTOR-ICKY")
+
+# ------------------------------------------------------------------ more benign twins (refactorings that keep behaviour)
+v("twin-radix-span-temp", ["C02", "C04"], "parse/earley.py", "                Q[item] = -((K - I) * self.ORDER_MAX + self.order[X])",
+  "                span = K - I\n                priority = -(span * self.ORDER_MAX + self.order[X])\n                Q[item] = priority", None)
+v("twin-order-split", ["C02", "C04"], "parse/earley.py", "        self.order = cfg._unary_graph_transpose().buckets\n",
+  "        unary = cfg._unary_graph_transpose()\n        self.order = unary.buckets\n", None)
+v("twin-memo-key-var", ["C05"], "parse/earley.py", "        x = tuple(x)\n        c = self._chart.get(x)\n        if c is None:",
+  "        key = tuple(x)\n        x = key\n        c = self._chart.get(key)\n        if c is None:", None)
+v("twin-bound-method-alias", ["C05"], "cfg.py", "        new = self.spawn(R=R)\n        for r in self:\n            new.add(f(r.w), r.head, *r.body)\n        return new",
+  "        new = self.spawn(R=R)\n        add = new.add\n        for r in self:\n            add(f(r.w), r.head, *r.body)\n        return new", None)
+v("twin-nullary-truthy-list", ["C07"], "cfg.py", "                if len(new_body) > 0:\n                    rcfg.add(v, f(r.head), *new_body)", "                if new_body:\n                    rcfg.add(v, f(r.head), *new_body)", None)
+v("twin-validator-single-if", ["C07"], "cfg.py",
+  "            if len(r.body) == 0 and r.head == self.S:\n                continue\n            elif len(r.body) == 1 and self.is_terminal(r.body[0]):\n                continue\n            elif len(r.body) == 2 and all(\n                self.is_nonterminal(y) and y != self.S for y in r.body\n            ):\n                continue\n            else:\n                yield r",
+  "            ok0 = len(r.body) == 0 and r.head == self.S\n            ok1 = len(r.body) == 1 and self.is_terminal(r.body[0])\n            ok2 = len(r.body) == 2 and all(self.is_nonterminal(y) and y != self.S for y in r.body)\n            if not (ok0 or ok1 or ok2):\n                yield r", None)
+v("twin-epsremove-rename", ["C11"], "wfsa/base.py", "        S = E.closure()\n        new = self.spawn(keep_stop=True)\n        for i, w_i in self.I:\n            for k in S.outgoing[i]:\n                new.add_I(k, w_i * S[i, k])",
+  "        closure = E.closure()\n        S = closure\n        new = self.spawn(keep_stop=True)\n        for i, w_i in self.I:\n            for k in closure.outgoing[i]:\n                new.add_I(k, w_i * closure[i, k])", None)
+v("twin-push-temp", ["C13"], "wfsa/base.py", "            new.add_F(i, V[i] ** (-1) * self.stop[i])", "            inv = V[i] ** (-1)\n            new.add_F(i, inv * self.stop[i])", None)
+v("twin-locnorm-nested-if", ["C20"], "cfglm.py", "        if Z[r.head] == 0:\n            continue\n        new.add(r.w * Z.product(r.body) / Z[r.head], r.head, *r.body)",
+  "        z = Z[r.head]\n        if z != 0:\n            new.add(r.w * Z.product(r.body) / z, r.head, *r.body)", None)
+v("twin-addeos-order", ["C20", "C01"], "cfglm.py", "    new.V.add(eos)\n    new.add(cfg.R.one, S, cfg.S, eos)\n    for r in cfg:\n        new.add(r.w, r.head, *r.body)\n    return new",
+  "    for r in cfg:\n        new.add(r.w, r.head, *r.body)\n    new.add(cfg.R.one, S, cfg.S, eos)\n    new.V.add(eos)\n    return new", None)
+v("twin-masktrim-temp", ["C01"], "cfglm.py", "        p = self.model.next_token_weights(self.model.chart(context)).trim()\n        return Float.chart({w: 1 for w in p})",
+  "        cols = self.model.chart(context)\n        weights = self.model.next_token_weights(cols)\n        p = weights.trim()\n        return Float.chart({w: 1 for w in p})", None)
+v("twin-solve-left-temp", ["C15", "C11"], "linear.py", "                for i in self.incoming[j]:\n                    enter[j] += sol[i] * self.E[i, j]",
+  "                for i in self.incoming[j]:\n                    contribution = sol[i] * self.E[i, j]\n                    enter[j] += contribution", None)
+v("twin-tocfg-loop-order", ["C17"], "wfsa/base.py", "            # add production rule for initial states\n            for i, w in self.I:\n                cfg.add(w, S, i)\n\n            # add production rule for final states\n            for i, w in self.F:\n                cfg.add(w, i)\n\n            # add other production rules\n            for i, a, j, w in self.arcs():\n                if a == EPSILON:\n                    cfg.add(w, i, j)\n                else:\n                    cfg.add(w, i, a, j)",
+  "            for i, a, j, w in self.arcs():\n                if a != EPSILON:\n                    cfg.add(w, i, a, j)\n                else:\n                    cfg.add(w, i, j)\n            for i, w in self.F:\n                cfg.add(w, i)\n            for i, w in self.I:\n                cfg.add(w, S, i)", None)
+v("twin-det-visited-rename", ["C13"], "wfsa/base.py", "        stack = []\n        visited = set()\n\n        Q = frozendict({i: w for i, w in self.I})\n        D.add_I(Q, self.R.one)\n        stack.append(Q)\n        visited.add(Q)\n\n        while stack:\n            P = stack.pop()\n            for a, Q, w in _powerarcs(P):\n                if Q not in visited:\n                    stack.append(Q)\n                    visited.add(Q)",
+  "        todo = []\n        seen = set()\n\n        Q = frozendict({i: w for i, w in self.I})\n        D.add_I(Q, self.R.one)\n        todo.append(Q)\n        seen.add(Q)\n\n        while todo:\n            P = todo.pop()\n            for a, Q, w in _powerarcs(P):\n                if Q not in seen:\n                    todo.append(Q)\n                    seen.add(Q)", None)
+v("twin-special-rules-rename", ["C09", "C03"], "cfg.py", "        for r in itertools.chain(self, special_rules):\n            if len(r.body) > 0:\n                R[r.body[0]].add(r)",
+  "        for r in itertools.chain(self, special_rules):\n            if len(r.body) == 0:\n                continue\n            R[r.body[0]].add(r)", None)
+v("twin-charcfg-rename-f", ["C19"], "lark_interface.py", "        def f(x):\n            return f\"N{_f(x)}\"\n\n        foo = CFG(Float, S=f(cfg.S), V=set())\n        for r in cfg:\n            foo.add(r.w * decay, f(r.head), *(f(y) for y in r.body))\n        del r",
+  "        def f(x):\n            return f\"N{_f(x)}\"\n\n        foo = CFG(Float, S=f(cfg.S), V=set())\n        for rule in cfg:\n            foo.add(rule.w * decay, f(rule.head), *(f(y) for y in rule.body))", None)
+v("twin-entropy-mul-temps", ["C16"], "semiring.py", "        return Entropy(\n            self.score[0] * other.score[0],\n            self.score[0] * other.score[1] + self.score[1] * other.score[0],\n        )",
+  "        p1, r1 = self.score\n        p2, r2 = other.score\n        return Entropy(p1 * p2, p1 * r2 + r1 * p2)", None)
